@@ -17,27 +17,37 @@ type nameRole struct {
 	name  string
 	src   string
 	files map[string]string // further files of the program (imports)
+	// identifiers of the program the placeholder may be spelled like: they live in a scope in which Go keeps the meaning
+	// of the program (shadowing in a nested block, a sibling function, a local next to a global that its scope never
+	// uses), so the renamed program must behave the same or be rejected
+	mayEqual []string
 }
 
 var c10Counter = map[string]string{"counter.tsh": "calls := 0\nfunc bump() int {\n\tcalls = calls + 1\n\treturn calls\n}\nfunc Next() int {\n\treturn bump() * 100\n}\n"}
 
 func nameRoles() []nameRole {
 	return []nameRole{
-		{"global-variable", "NAME := 3\nq := []int{1}\nq[2] = NAME\nfor i := 0; i < 2; i++ {\n\tNAME = NAME + i\n}\nt := \"abc\"\nprint(NAME, len(q), t[1:2], NAME > 2 && true)\n", nil},
-		{"global-string-variable", "NAME := \"v\"\nNAME = NAME + \"w\"\nprint(NAME, len(NAME), NAME == \"vw\")\nwrite(\"o.txt\", NAME)\nprint(read(\"o.txt\"))\n", nil},
-		{"local-variable", "func f(a int) int {\n\tNAME := a * 2\n\tw := []int{NAME}\n\tw[1] = NAME + 1\n\treturn w[1] + NAME\n}\nz := 1\nprint(f(z), z)\n", nil},
-		{"parameter", "func f(NAME int, b int) (int, int) {\n\tfor i := 0; i < 2; i++ {\n\t\tb = b + NAME\n\t}\n\treturn NAME, b\n}\nx, y := f(2, 3)\nprint(x, y)\n", nil},
-		{"function-name", "func NAME(a int) int {\n\treturn a + 1\n}\nfunc g(a int) int {\n\treturn NAME(a) * 2\n}\ns := []int{1}\ns[1] = g(1)\nu := \"tv\"\nprint(NAME(1), s[1], u[0:1])\n", nil},
-		{"loop-variable", "acc := 0\nfor NAME := 0; NAME < 3; NAME++ {\n\tacc = acc + NAME\n}\nfor i, NAME := range []int{4, 5} {\n\tacc = acc + i * NAME\n}\nprint(acc)\n", nil},
-		{"copy-destination", "src := []int{3, 7, 9}\nNAME := []int{}\nn := copy(NAME, src)\nprint(n, len(NAME), NAME[1], NAME[2])\n", nil},
-		{"global-next-to-function-local", "NAME := 1\nfunc g() int {\n\tx := 42\n\tNAME = NAME + 0\n\treturn x\n}\nfunc h(y int) int {\n\treturn y + g()\n}\nprint(g(), h(1), NAME)\n", nil},
-		{"local-next-to-callee-local", "func r() int {\n\tn := 20\n\treturn n\n}\nfunc f() int {\n\tNAME := 2\n\tk := r()\n\treturn k + NAME\n}\nprint(f())\n", nil},
-		{"second-name-of-short-definition", "Cap := 10\nstep, NAME := 1, 2\nprint(Cap, step, NAME)\nCap = Cap + NAME\nprint(Cap, NAME)\n", nil},
-		{"local-next-to-parameter", "func f(Rst int, d int) int {\n\tq, NAME := Rst / d, Rst % d\n\treturn q + NAME + Rst\n}\nprint(f(7, 2))\n", nil},
-		{"target-of-multi-result-call", "func dm(a int, b int) (int, int) {\n\treturn a / b, a % b\n}\nfunc use() int {\n\tNAME, rest := dm(7, 2)\n\tNAME, rest = dm(NAME + 9, rest + 1)\n\treturn NAME * 10 + rest\n}\nNAME, r2 := dm(9, 4)\nprint(NAME, r2, use())\n", nil},
-		{"global-next-to-imported-file", "import c \"counter.tsh\"\nNAME := 42\nprint(c.Next(), NAME)\nNAME = NAME + c.Next()\nprint(NAME)\n", c10Counter},
-		{"function-next-to-imported-file", "import c \"counter.tsh\"\nfunc NAME(a int) int {\n\treturn a * 2\n}\nprint(c.Next(), NAME(1), c.Next())\n", c10Counter},
-		{"slice-variable", "NAME := []string{\"a\"}\nNAME[1] = \"b\"\nc := []string{}\nprint(copy(c, NAME), len(NAME), NAME[1], c[0])\n", nil},
+		{"global-variable", "NAME := 3\nq := []int{1}\nq[2] = NAME\nfor i := 0; i < 2; i++ {\n\tNAME = NAME + i\n}\nt := \"abc\"\nprint(NAME, len(q), t[1:2], NAME > 2 && true)\n", nil, nil},
+		{"global-string-variable", "NAME := \"v\"\nNAME = NAME + \"w\"\nprint(NAME, len(NAME), NAME == \"vw\")\nwrite(\"o.txt\", NAME)\nprint(read(\"o.txt\"))\n", nil, nil},
+		{"local-variable", "func f(a int) int {\n\tNAME := a * 2\n\tw := []int{NAME}\n\tw[1] = NAME + 1\n\treturn w[1] + NAME\n}\nz := 1\nprint(f(z), z)\n", nil, nil},
+		{"parameter", "func f(NAME int, b int) (int, int) {\n\tfor i := 0; i < 2; i++ {\n\t\tb = b + NAME\n\t}\n\treturn NAME, b\n}\nx, y := f(2, 3)\nprint(x, y)\n", nil, nil},
+		{"function-name", "func NAME(a int) int {\n\treturn a + 1\n}\nfunc g(a int) int {\n\treturn NAME(a) * 2\n}\ns := []int{1}\ns[1] = g(1)\nu := \"tv\"\nprint(NAME(1), s[1], u[0:1])\n", nil, nil},
+		{"loop-variable", "acc := 0\nfor NAME := 0; NAME < 3; NAME++ {\n\tacc = acc + NAME\n}\nfor i, NAME := range []int{4, 5} {\n\tacc = acc + i * NAME\n}\nprint(acc)\n", nil, nil},
+		{"copy-destination", "src := []int{3, 7, 9}\nNAME := []int{}\nn := copy(NAME, src)\nprint(n, len(NAME), NAME[1], NAME[2])\n", nil, nil},
+		{"global-next-to-function-local", "NAME := 1\nfunc g() int {\n\tx := 42\n\tNAME = NAME + 0\n\treturn x\n}\nfunc h(y int) int {\n\treturn y + g()\n}\nprint(g(), h(1), NAME)\n", nil, nil},
+		{"local-next-to-callee-local", "func r() int {\n\tn := 20\n\treturn n\n}\nfunc f() int {\n\tNAME := 2\n\tk := r()\n\treturn k + NAME\n}\nprint(f())\n", nil, []string{"n"}},
+		{"second-name-of-short-definition", "Cap := 10\nstep, NAME := 1, 2\nprint(Cap, step, NAME)\nCap = Cap + NAME\nprint(Cap, NAME)\n", nil, nil},
+		{"local-next-to-parameter", "func f(Rst int, d int) int {\n\tq, NAME := Rst / d, Rst % d\n\treturn q + NAME + Rst\n}\nprint(f(7, 2))\n", nil, nil},
+		{"target-of-multi-result-call", "func dm(a int, b int) (int, int) {\n\treturn a / b, a % b\n}\nfunc use() int {\n\tNAME, rest := dm(7, 2)\n\tNAME, rest = dm(NAME + 9, rest + 1)\n\treturn NAME * 10 + rest\n}\nNAME, r2 := dm(9, 4)\nprint(NAME, r2, use())\n", nil, nil},
+		{"global-next-to-imported-file", "import c \"counter.tsh\"\nNAME := 42\nprint(c.Next(), NAME)\nNAME = NAME + c.Next()\nprint(NAME)\n", c10Counter, nil},
+		{"function-next-to-imported-file", "import c \"counter.tsh\"\nfunc NAME(a int) int {\n\treturn a * 2\n}\nprint(c.Next(), NAME(1), c.Next())\n", c10Counter, nil},
+		{"block-local-next-to-outer-variable", "tot := 3\ncount := 0\nif tot > 2 {\n\tNAME := 10\n\tcount = count + NAME\n}\nfor i := 0; i < 2; i++ {\n\tNAME := i * 2\n\tcount = count + NAME\n}\nprint(tot, count)\n", nil, []string{"tot"}},
+		{"function-local-next-to-global", "lim := 5\nfunc f(a int) int {\n\tNAME := a + 1\n\treturn NAME * 2\n}\nprint(f(1), lim)\nlim = lim + f(2)\nprint(lim)\n", nil, []string{"lim"}},
+		{"parameter-next-to-global", "lim := 5\nfunc f(NAME int) int {\n\tNAME = NAME + 1\n\treturn NAME * 2\n}\nprint(f(1), lim)\n", nil, []string{"lim"}},
+		{"local-next-to-sibling-local", "func f() int {\n\tacc := 1\n\tacc = acc + 1\n\treturn acc\n}\nfunc g() int {\n\tNAME := 5\n\tk := f()\n\treturn NAME * 10 + k\n}\nprint(g())\n", nil, []string{"acc"}},
+		{"range-variable-next-to-outer-variable", "lab := \"outer\"\nsum := 0\nfor i, NAME := range []int{4, 5} {\n\tsum = sum + i + NAME\n}\nprint(lab, sum)\n", nil, []string{"lab"}},
+		{"switch-clause-local-next-to-outer-variable", "mode := 2\nres := 0\nswitch mode {\ncase 1:\n\tNAME := 7\n\tres = NAME\ncase 2:\n\tNAME := 9\n\tres = NAME + 1\n}\nprint(mode, res)\n", nil, []string{"mode"}},
+		{"slice-variable", "NAME := []string{\"a\"}\nNAME[1] = \"b\"\nc := []string{}\nprint(copy(c, NAME), len(NAME), NAME[1], c[0])\n", nil, nil},
 	}
 }
 
@@ -66,9 +76,9 @@ func CheckC10(r *Run) int {
 	}
 	r.Native = nat
 	quick := r.Tier == "quick"
-	maxLen := 4
+	maxLen := 6
 	if !quick {
-		maxLen = 5
+		maxLen = 8
 	}
 	roles := nameRoles()
 	var mu sync.Mutex
@@ -93,7 +103,13 @@ func CheckC10(r *Run) int {
 		name := gosym.Concat(nameParts...)
 		// injective renamings only: the new spelling must differ from the program's other identifiers
 		for _, other := range otherIdentifiers(role.src) {
-			if len(other) == n {
+			allowed := false
+			for _, me := range role.mayEqual {
+				if me == other {
+					allowed = true
+				}
+			}
+			if len(other) == n && !allowed {
 				c.AssumeUnchecked(B.Not(c.StrEq(name, gosym.Conc(other))))
 			}
 		}
